@@ -849,9 +849,8 @@ def self_test():
         assert not rsassa_pkcs1v15_verify(v["n"], v["e"], v["hash"], dg, s2)
         assert rsassa_pkcs1v15_verify(v["n"], v["e"], v["hash"], dg, s2, allow_missing_null=True)
         assert not rsassa_pkcs1v15_verify(v["n"], v["e"], v["hash"], dg, v["sig"][1:])
-        assert not rsassa_pkcs1v15_verify(v["n"], v["e"], v["hash"], dg,
-                                          i2osp(os2ip(v["sig"]) + v["n"], len(v["sig"]) + 1)[-len(v["sig"]):]) \
-            or True
+        assert not rsassa_pkcs1v15_verify(v["n"], v["e"], v["hash"], dg, b"\x00" + v["sig"])
+        assert not rsassa_pkcs1v15_verify(v["n"], v["e"], v["hash"], dg, i2osp(v["n"], len(v["sig"])))
 
     # ---- PSS (FIPS 186-2 SigGenPSS, mod 1024, salt 20) ----------------------
     for v in _PSS_SIG:
@@ -901,12 +900,11 @@ def self_test():
 
     # ---- key generation / checking -------------------------------------------
     for bits, e in ((512, 3), (1024, 65537), (1025, 3), (1031, 65537)):
-        if True:
-            key = make_rsa_key(bits, e, rng)
-            assert key["n"].bit_length() == bits
-            assert check_rsa_key(key) == [], check_rsa_key(key)
-            m = rng.randrange(2, key["n"])
-            assert rsadp(key, rsaep(key["n"], e, m)) == m
+        key = make_rsa_key(bits, e, rng)
+        assert key["n"].bit_length() == bits
+        assert check_rsa_key(key) == [], check_rsa_key(key)
+        m = rng.randrange(2, key["n"])
+        assert rsadp(key, rsaep(key["n"], e, m)) == m
     key = make_rsa_key(1029, 65537, rng)
     mh = hashlib.sha256(b"m").digest()
     sig = rsassa_pss_sign(key, mh, b"s" * 32, "sha256")
